@@ -161,13 +161,50 @@ coap_prng_lkd(void *buf, size_t len) {
 #endif
 
 #ifndef VERIF_REPLAY
-/* glibc's isprint()/isdigit() macros index a table obtained from __ctype_b_loc(); CBMC has no body for it.
- * Model: a 384-entry table with arbitrary classification bits (the classification only selects which character
- * is printed by debug code; bounds of the index -128..255 are still checked). */
+/* glibc's isprint()/isxdigit()/... macros index a table obtained from __ctype_b_loc(); CBMC has no body for it.
+ * Model: the "C" locale table (bit layout of glibc on little-endian: _ISbit(n) = n < 8 ? 1 << (n + 8) : 1 << (n - 8)),
+ * built on first use; indices -128..255 are valid as in glibc. */
 static unsigned short env_ctype_tab[384];
 static const unsigned short *env_ctype_ptr = env_ctype_tab + 128;
+static int env_ctype_init;
 const unsigned short **
 __ctype_b_loc(void) {
+  if (!env_ctype_init) {
+    int c;
+    env_ctype_init = 1;
+    for (c = 0; c < 256; c++) {
+      unsigned short b = 0;
+      int up = c >= 'A' && c <= 'Z', lo = c >= 'a' && c <= 'z', dg = c >= '0' && c <= '9';
+      int xd = dg || (c >= 'a' && c <= 'f') || (c >= 'A' && c <= 'F');
+      int sp = c == ' ' || (c >= 9 && c <= 13), pr = c >= 32 && c <= 126, ct = c < 32 || c == 127;
+      int gr = c > 32 && c <= 126, pu = gr && !(up || lo || dg);
+      if (up) b |= 0x100;
+      if (lo) b |= 0x200;
+      if (up || lo) b |= 0x400;
+      if (dg) b |= 0x800;
+      if (xd) b |= 0x1000;
+      if (sp) b |= 0x2000;
+      if (pr) b |= 0x4000;
+      if (gr) b |= 0x8000;
+      if (c == ' ' || c == 9) b |= 0x1;
+      if (ct) b |= 0x2;
+      if (pu) b |= 0x4;
+      if (up || lo || dg) b |= 0x8;
+      env_ctype_tab[128 + c] = b;
+    }
+  }
   return &env_ctype_ptr;
+}
+#endif
+
+#ifndef VERIF_REPLAY
+/* CBMC 6.11 ships no faithful model of memchr(): plain byte loop (bounded by the job's unwind limit) */
+void *
+memchr(const void *s, int c, size_t n) {
+  const unsigned char *p = (const unsigned char *)s;
+  size_t i;
+  for (i = 0; i < n; i++)
+    if (p[i] == (unsigned char)c) return (void *)(p + i);
+  return NULL;
 }
 #endif
